@@ -658,5 +658,100 @@ func c06rules(c *Ctx, w *World, pfx string) {
 			}
 		}
 		r.Check("NewBackendHandler:workers-field", okW, nb.Pos(), "workers field is the slice that was made")
+		// the table index -> worker is fixed once built: after construction the workers slice is only read
+		// (indexed, ranged, measured); it is never written through, re-sliced into a call, sorted or replaced
+		nUses := 0
+		for _, f := range pkgFuncs(w, "pkg/statsd") {
+			if f == nb || (f.Parent() != nil && f.Parent() == nb) {
+				continue
+			}
+			for _, st := range fieldStores(f, "BackendHandler", "workers") {
+				r.Check("workers-table:fixed:"+FuncName(f), false, st.Pos(), "the workers field is replaced after construction")
+			}
+			eachInstr(f, func(in ssa.Instruction) {
+				u, ok := in.(*ssa.UnOp)
+				if !ok || u.Op != token.MUL {
+					return
+				}
+				if t, fld, _, isF := fieldRef(u.X); !isF || t != "BackendHandler" || fld != "workers" {
+					return
+				}
+				nUses++
+				bad := ""
+				var visit func(v ssa.Value, depth int)
+				visit = func(v ssa.Value, depth int) {
+					if v.Referrers() == nil || depth > 6 {
+						return
+					}
+					for _, ref := range *v.Referrers() {
+						switch x := ref.(type) {
+						case *ssa.IndexAddr:
+							for _, r2 := range *x.Referrers() {
+								if st, isSt := r2.(*ssa.Store); isSt && st.Addr == ssa.Value(x) {
+									bad = "an element is overwritten"
+								} else if _, isU := r2.(*ssa.UnOp); !isU {
+									if _, isD := r2.(*ssa.DebugRef); !isD {
+										bad = "the address of an element escapes"
+									}
+								}
+							}
+						case *ssa.Phi:
+							visit(x, depth+1)
+						case *ssa.Slice:
+							visit(x, depth+1)
+						case *ssa.Range, *ssa.DebugRef:
+						case ssa.CallInstruction:
+							if !isCall(x, "builtin len", "builtin cap") {
+								bad = "the slice is passed to " + exprString(x.Common().Value, 0)
+								if sc := staticCallee(x); sc != nil {
+									bad = "the slice is passed to " + FuncName(sc)
+								}
+							}
+						case *ssa.MakeClosure:
+							bad = "the slice is captured by a closure"
+						case *ssa.Store:
+							if x.Val != v {
+								break
+							}
+							// a local variable (possibly shared with closures): follow its loads
+							al, isAl := x.Addr.(*ssa.Alloc)
+							if !isAl {
+								bad = "the slice is stored elsewhere"
+								break
+							}
+							var cells []ssa.Value
+							cells = append(cells, al)
+							for _, r2 := range *al.Referrers() {
+								if mc, isMC := r2.(*ssa.MakeClosure); isMC {
+									for bi, bnd := range mc.Bindings {
+										if bnd == ssa.Value(al) {
+											cells = append(cells, mc.Fn.(*ssa.Function).FreeVars[bi])
+										}
+									}
+								} else if _, isSt := r2.(*ssa.Store); !isSt {
+									if _, isU := r2.(*ssa.UnOp); !isU {
+										if _, isD := r2.(*ssa.DebugRef); !isD {
+											bad = "the variable holding the slice escapes"
+										}
+									}
+								}
+							}
+							for _, cell := range cells {
+								for _, r2 := range *cell.Referrers() {
+									if ld, isU := r2.(*ssa.UnOp); isU && ld.Op == token.MUL {
+										visit(ld, depth+1)
+									}
+								}
+							}
+						case *ssa.MakeInterface, *ssa.ChangeType:
+							bad = "the slice is converted and handed on"
+						}
+					}
+				}
+				visit(u, 0)
+				r.Check(fmt.Sprintf("workers-table:read-only:%s#%d", FuncName(f), nUses), bad == "", u.Pos(), "bh.workers is only indexed, ranged over or measured after construction; "+bad)
+			})
+		}
+		r.Check("workers-table:uses", nUses >= 2, token.NoPos, fmt.Sprintf("%d reads of the workers field outside the constructor", nUses))
 	})
 }
